@@ -167,6 +167,18 @@ Theorem C01_stmt_range_bound_refuted :
 Proof. exact reeval_refuted. Qed.
 Print Assumptions C01_stmt_range_bound_refuted.
 
+(* The guard clause "loop variables are never assigned" is necessary: `for i in range(4): mon.write(i); i = i + 2;
+   mon.write(i)` is accepted; Python re-binds i from the range at the head of every iteration (0 2 1 3 2 4 3 5), the C
+   for-loop counts with the assigned variable itself (0 2 3 5: two iterations).  Finding F-C01-loop-var-assigned. *)
+Theorem C01_stmt_loop_var_assigned_refuted :
+  exists c trP trC,
+    transl loopvar = Some c /\ sem_facts loopvar_sem demo_aug loopvar /\
+    pprog_exec loopvar_sem demo_aug 40 0 loopvar = Some trP /\
+    cprog_exec loopvar_sem demo_aug (info_of loopvar) 40 0 false c = Some trC /\
+    trP <> trC /\ guard_ok loopvar = false.
+Proof. exact loopvar_refuted. Qed.
+Print Assumptions C01_stmt_loop_var_assigned_refuted.
+
 (* The guard clause on stable types is necessary: `x = 1; x = 2.5; mon.write(x)` is accepted,
    the C variable keeps the type of its first assignment (int), so the device prints 2 where
    Python prints 2.5.  Finding F-C01-retype-truncates. *)
